@@ -70,11 +70,15 @@ func (w *World) twinCheck(extra map[string]int) {
 		idx uint16
 	}
 	early := map[slot]*Payload{}
+	var future []*Payload // payloads of heights above the new one: legitimately still parked in the cache
 	for _, e := range path {
 		if e.K == "inj" {
 			p := w2.e2.syms[e.A].mk(w2)
 			if p == nil {
 				return // symbol availability depended on the removed payloads: not comparable
+			}
+			if p.height > newH {
+				future = append(future, p)
 			}
 			if p.height == newH && x2.d.BlockIndex < newH {
 				if c := catOf(p.typ); c >= 0 && int(p.idx) < len(x2.d.Validators) {
@@ -139,6 +143,9 @@ func (w *World) twinCheck(extra map[string]int) {
 	x3.Reset()
 	for _, s := range slots {
 		x3.Receive(early[s])
+	}
+	for _, p := range future {
+		x3.Receive(p)
 	}
 	if len(w3.viol) > 0 {
 		return
